@@ -208,6 +208,48 @@ pub fn finish_reinit(w: &mut World) -> VResult<()> {
             w.stats.probe("unlinked-successor-offered");
         }
     }
+    // a Byzantine old member creates the successor with everything right (the re-init PSK included) except the group
+    // context extensions, which are not the announced ones: the re-init clients of the others must refuse its Welcome
+    if same_suite && !joiners.is_empty() && relation == Relation::Equal && crate::prng::mix(&[w.seed, 0xb42]) % 2 == 0 {
+        let cg = w.parties[creator].mems[g].group.clone().unwrap();
+        let kps2 = kps.clone();
+        mls_rs::group::verif_hooks::modifiers::set(40, w.seed as u8);
+        let res = guarded(&prop, "ReinitClient::commit(other extensions)", || {
+            let mut msgs = vec![];
+            for k in &kps2 {
+                msgs.push(MlsMessage::from_bytes(k)?);
+            }
+            cg.get_reinit_client(None, None)?.commit(msgs, Default::default(), Some(now))
+        });
+        let fired = mls_rs::group::verif_hooks::modifiers::clear();
+        if let (Ok((ng, welcomes)), true) = (res?, fired > 0) {
+            let tree = ng.export_tree().to_bytes().unwrap_or_default();
+            w.stats.fault("B-SUCCESSOR-EXT");
+            for j in &joiners {
+                let grp = w.parties[*j].mems[g].group.clone().unwrap();
+                for wm in &welcomes {
+                    let wb = wm.to_bytes().unwrap_or_default();
+                    let grp2 = grp.clone();
+                    let r = guarded(&prop, "ReinitClient::join(other extensions)", || {
+                        grp2.get_reinit_client(None, None)?.join(
+                            &MlsMessage::from_bytes(&wb)?,
+                            Some(mls_rs::group::ExportedTree::from_bytes(&tree)?),
+                            Some(now),
+                        )
+                    })?;
+                    w.stats.check("successor-with-other-extensions-refused");
+                    if r.is_ok() {
+                        return Err(viol(
+                            w,
+                            "reinit-successor",
+                            "joined-successor-with-other-extensions".into(),
+                            format!("P{j} joined, through its re-init client, a successor of g{g} whose group context extensions are not the ones the ReInit proposal announced"),
+                        ));
+                    }
+                }
+            }
+        }
+    }
     let cg = w.parties[creator].mems[g].group.clone().unwrap();
     let kps2 = kps.clone();
     let res = guarded(&prop, "ReinitClient::commit", || {
@@ -450,6 +492,50 @@ pub fn do_branch(w: &mut World, creator: usize, mask: u64, variant: u64) -> VRes
         }
         if with_outsider {
             match w.gen_key_package(outsider.unwrap())? {
+                Some(k) => kps.push(k),
+                None => return Ok(false),
+            }
+        }
+    }
+    // a Byzantine member branches with everything right (the branch PSK included) except the group context
+    // extensions, which are not those of the old group: join_subgroup must refuse the Welcome
+    if variant % 4 == 2 && !with_outsider {
+        let cg = w.parties[creator].mems[g].group.clone().unwrap();
+        let kps2 = kps.clone();
+        let gid2 = [&sub_gid[..], b"-x"].concat();
+        mls_rs::group::verif_hooks::modifiers::set(40, variant as u8);
+        let res: VResult<Result<(SimGroup, Vec<MlsMessage>), MlsError>> = guarded(&prop, "branch(other extensions)", || {
+            let mut msgs = vec![];
+            for k in &kps2 {
+                msgs.push(MlsMessage::from_bytes(k)?);
+            }
+            cg.branch(gid2.clone(), msgs, Some(now))
+        });
+        let fired = mls_rs::group::verif_hooks::modifiers::clear();
+        if let (Ok((sub, welcomes)), true) = (res?, fired > 0) {
+            let tree = sub.export_tree().to_bytes().unwrap_or_default();
+            w.stats.fault("B-SUCCESSOR-EXT");
+            for j in &subset {
+                let grp = w.parties[*j].mems[g].group.clone().unwrap();
+                for wm in &welcomes {
+                    let r = guarded(&prop, "join_subgroup(other extensions)", || {
+                        grp.join_subgroup(wm, Some(mls_rs::group::ExportedTree::from_bytes(&tree)?), Some(now))
+                    })?;
+                    w.stats.check("subgroup-with-other-extensions-refused");
+                    if r.is_ok() {
+                        return Err(viol(
+                            w,
+                            "branch-subgroup",
+                            "joined-subgroup-with-other-extensions".into(),
+                            format!("P{j} joined, with join_subgroup, a sub-group of g{g} whose group context extensions differ from the old group's"),
+                        ));
+                    }
+                }
+            }
+        }
+        kps.clear();
+        for j in &subset {
+            match w.gen_key_package(*j)? {
                 Some(k) => kps.push(k),
                 None => return Ok(false),
             }
